@@ -367,6 +367,7 @@ def check(prop, tier):
     tiers = {}
     digests = {}      # (wl, shardinfo, key) -> {value: [job names]}
     per_wl = {}
+    trivial_total = [0]
     for j in jobs:
         recs = read_journal(j.journal)
         hello = [r for r in recs if r.get("t") == "hello"]
@@ -396,6 +397,7 @@ def check(prop, tier):
                 harness_errors.append("%s: garbled journal line" % j.name)
         for d in dones:
             evaluations += d.get("cases", 0)
+            trivial_total[0] += d.get("trivial", 0)
             generated = max(generated, d.get("generated", 0))
             for k in d.get("classes", []):
                 classes.add(j.config + "|" + j.variant + "|" + k)
@@ -481,8 +483,12 @@ def check(prop, tier):
     wall = time.time() - t0
     cov = dict(
         evaluations=int(evaluations),
-        distinct_nontrivial=len(classes),
-        rule=plan["rule"],
+        # a case may carry several class keys: never report more distinct cases than non-trivial cases were executed
+        distinct_nontrivial=min(len(classes), max(int(evaluations) - trivial_total[0], 0)),
+        distinct_class_keys=len(classes),
+        trivial_cases=trivial_total[0],
+        rule=plan["rule"] + " [distinct_nontrivial = number of distinct class keys (configuration | workload-defined key) observed on "
+                            "non-trivial cases, capped by the number of non-trivial cases executed]",
         samples=samples[:40] or ["(none)"],
         configurations_observed=tiers,
         events=events,
